@@ -1,0 +1,27 @@
+//go:build verif
+
+package remote
+
+import (
+	"context"
+	"crypto/tls"
+
+	"github.com/foxcpp/maddy/framework/dns"
+	"github.com/foxcpp/maddy/framework/future"
+	"github.com/foxcpp/maddy/framework/module"
+)
+
+// Export shim for the verification harness (/verif, property C13).
+// Add-only, compiled only with the build tag "verif".
+
+// VerifDANECheckConnLevels runs the real daneDelivery.CheckConn on a delivery
+// whose TLSA discovery has completed with (recs, lookupErr), with the MX and
+// TLS levels the policies applied before mx_auth.dane have established.
+func VerifDANECheckConnLevels(ctx context.Context, recs []dns.TLSA, lookupErr error,
+	mxLevel module.MXLevel, tlsLevel module.TLSLevel, mx string,
+	connState tls.ConnectionState) (module.TLSLevel, error) {
+	d := verifDANEPolicy(&dns.ExtResolver{}).Start(nil).(*daneDelivery)
+	d.tlsaFut = future.New()
+	d.tlsaFut.Set(recs, lookupErr)
+	return d.CheckConn(ctx, mxLevel, tlsLevel, "", mx, connState)
+}
